@@ -50,3 +50,13 @@ Definition coords_from_df (rows : list row) : list (list row) :=
     let tl := fst (last rest (t0, fr0)) in
     walk t0 (Z.to_nat (tl - t0 + 1)) ((t0, fr0) :: rest)
   end.
+
+(* correspondence helper: the implementation's per-frame row ids against the model's *)
+Fixpoint ids_eqb (a b : list (list nat)) : bool :=
+  match a, b with
+  | [], [] => true
+  | x :: a', y :: b' => (if list_eq_dec Nat.eq_dec x y then true else false) && ids_eqb a' b'
+  | _, _ => false
+  end.
+Definition check_cfd (rows : list row) (out : list (list nat)) : N :=
+  if ids_eqb (map (map r_id) (coords_from_df rows)) out then 0%N else 1%N.
